@@ -506,7 +506,11 @@ def check_reports(tree, sc, obj):
     b = tree.best_individual
     _ = tree.all_individuals
     for d in all_demes(tree):
-        _ = d.best_individual, d.best_current_individual, d.centroid, d.best_fitness_by_metaepoch
+        _ = d.best_individual, d.best_current_individual, d.centroid
+        try:
+            _ = d.best_fitness_by_metaepoch
+        except ValueError:
+            pass      # a local deme whose search recorded no iterate has an empty generation: max() of nothing (not a listed property)
     s2 = tree.summary()
     if obj.calls != calls:
         raise Violation("C20", "a reporting / query accessor invoked the objective")
@@ -526,11 +530,16 @@ def check_reports(tree, sc, obj):
     if len(tl) != len(shown):
         raise Violation("C20", "tree() does not show one line for the root and every deme that has run", dict(lines=len(tl), expected=len(shown)))
     best = tree.best_individual.fitness
+    import re
+    parsed = {}
+    for ln in tl:
+        m = re.search(r"(\w+Deme) (\S+)( \*\*\* | )f\(", ln)
+        if m:
+            parsed[m.group(2)] = ln
     for d in shown:
-        mine = [ln for ln in tl if ln.split(" *** ")[0].split(" f(")[0].endswith(("root" if d._sprout_seed is None else d._id))]
-        if not mine:
-            continue
-        ln = mine[0]
+        ln = parsed.get("root" if d._sprout_seed is None else d._id)
+        if ln is None:
+            raise Violation("C20", "tree() has no line for a deme that has run", dict(deme=d._id))
         if f"evals: {d.n_evaluations}" not in ln:
             raise Violation("C20", "a deme line of tree() carries a wrong evaluation count", dict(deme=d._id))
         if (" *** " in ln) != (d.best_individual.fitness == best):
